@@ -491,3 +491,14 @@ package datastore
 //@   safety_off
 //@   calls_havoc
 //@   modifies *
+
+// saveToStore must not hold the repo lock while dvid.Serialize runs repoT.GobEncode, which read-locks the
+// repo itself, and must release what it acquires on every return path.
+//@ func repoT.saveToStore
+//@   prop C11
+//@   lockset
+//@   lockbalance
+//@   inline
+//@   safety_off
+//@   calls_havoc
+//@   modifies *
